@@ -220,12 +220,13 @@ fn handle_lag<T: Clone + 'static>(rx: &mut Receiver<BroadcastMessage<T>>) -> Opt
             Ok(m) => {
                 msg = Some(m);
             }
-            // Ideally we'd return a `VecDiff::Reset` with the last state before the
-            // channel was closed here, but we have no way of obtaining the last state.
+            // The channel was closed after the lag. `Closed` is only reported once the
+            // buffer has been drained, so `msg` holds the last message that was sent,
+            // whose state is the final state of the vector.
             Err(TryRecvError::Closed) => {
                 #[cfg(feature = "tracing")]
-                info!("Channel closed after lag, can't return last state");
-                return None;
+                info!("Channel closed after lag, resetting to the last state");
+                return msg.map(|msg| msg.state);
             }
             // Lagged twice in a row, is this possible? If it is, it's fine to just
             // loop again and look at the next try_recv result.
